@@ -142,7 +142,8 @@ ANIM_VALUES = {
 
 def fam_anim(nsteps):
   lvls = ["region", "div", "p", "span"]
-  doms = [lvls, [F(1), F(3, 2)], [None, F(4)], [None, F(1, 2)], [0, 1, 2]] + [STEP_TIMES] * nsteps + [[0, 1]] * nsteps
+  doms = [lvls, [F(1), F(3, 2)], [None, F(4)], [None, F(1, 2)] if nsteps == 1 else [None], [0, 1, 2] if nsteps == 1 else [0, 1]] \
+    + [STEP_TIMES] * nsteps + [[0, 1]] * nsteps
   prod = Product(doms)
 
   def dec(i):
@@ -170,6 +171,40 @@ def fam_anim(nsteps):
                 note="element/region at a non-zero offset carrying set steps")
 
 
+HIDE = [("Opacity", 0, 1.0), ("Display", docgen.NONE, docgen.AUTO), ("Visibility", ["E", "VisibilityType", "hidden"], ["E", "VisibilityType", "visible"]),
+        ("ShowBackground", ["E", "ShowBackgroundType", "whenActive"], ["E", "ShowBackgroundType", "always"]), ("BackgroundColor", ["C", 0, 0, 0, 0], RED)]
+
+
+def fam_region_bg():
+  """regions whose own background is hidden by a specified value or by an initial value and revealed by an animation
+  step outside the content interval (the SignificantTimes content-interval short cut must not skip them)"""
+  prod = Product([range(len(HIDE)), ["spec", "init"], [(F(1), F(2)), (None, F(2)), (F(7), None)], [None, (F(5), F(6))], [1, 2], [None, F(1, 2)]])
+
+  def dec(i):
+    hi, src, (ab, ae), content, nreg, rbegin = prod.decode(i)
+    prop, hidden, shown = HIDE[hi]
+    spec = docgen.chain_doc({"p": content} if content else {}, True)
+    r = spec["regions"][0]
+    r["st"] = {"BackgroundColor": RED}
+    if src == "spec":
+      r["st"][prop] = hidden
+    else:
+      spec["init"] = [[prop, hidden]]
+    r["an"] = [[prop, ab, ae, shown]]
+    if rbegin is not None:
+      r["b"] = rbegin
+    if nreg == 2:
+      spec["regions"].append({"id": "r2"})
+    if content is None:
+      spec["body"]["c"] = []
+    return spec
+
+  def decode(i):
+    return {"spec": dec(i), "key": f"F-region-bg#{i}"}
+  return Family("F-region-bg", prod.n, decode, check_doc, shrink=c01.shrink_doc, timeout=30,
+                note="region background hidden statically (specified/initial) and revealed by an animation step")
+
+
 def plan(tier, seed):
   fams = []
   for f in c01.plan(tier, seed):
@@ -179,6 +214,7 @@ def plan(tier, seed):
     fams.append(Family(f.name, f.n, dec, check_doc, shrink=c01.shrink_doc, timeout=30, note=f.note))
   fams.append(fam_anim(1))
   fams.append(fam_anim(2))
+  fams.append(fam_region_bg())
   if tier == "thorough":
     fams.append(fam_anim(3))
   return fams
